@@ -327,7 +327,7 @@ impl Property for C04 {
     }
 
     fn cases(tier: Tier) -> u64 {
-        tier.pick(3_000, 60_000)
+        tier.pick(3_000, 200_000)
     }
 
     fn exhaustive_spaces(tier: Tier) -> Vec<String> {
